@@ -72,6 +72,22 @@ func runC02(c *core.Ctx) {
 				spec.exts = []extEl{{0, t.Bytes(4 * (0x4000 + t.Intn(8)))}}
 				c.Probe("jumbo-extension")
 			}
+			if (spec.profile == profOneByte || spec.profile == profTwoByte) && t.Chance(1, 250) {
+				// hundreds of tiny elements in one block (ids repeat necessarily): counts beyond 8 bits
+				n := []int{255, 256, 257, 300, 512, 700}[t.Intn(6)]
+				maxID := 14
+				if spec.profile == profTwoByte {
+					maxID = 255
+				}
+				for len(spec.exts) < n {
+					l := t.Intn(3)
+					if spec.profile == profOneByte {
+						l = 1 + t.Intn(2)
+					}
+					spec.exts = append(spec.exts, extEl{uint8(1 + t.Intn(maxID)), t.Bytes(l)})
+				}
+				c.Probe("hundreds-of-extension-elements")
+			}
 			img := spec.encode()
 			w.Send(datagram{stream: s, frame: k, b: img, meta: spec})
 			loop.After(int64(100_000+t.Intn(20_000_000)), func() { send(k + 1) })
